@@ -39,4 +39,10 @@ def r3(run, tree):
     lr.check_hilbert_cpu_list(run, tree)
 
 
-RULES = [r1_r2, r2_leaf, r3]
+def r_shared_c12_r4(run, tree):
+    run.rule("C12.R4", "a level-limited reload starts from empty per-variable pieces (no cells of deeper levels left from an earlier load)", "D7 folds (shared)", "", floor=1)
+    iof.check_descriptor_to_variables(run, tree)
+    lfold.check_load(run, tree)
+
+
+RULES = [r_shared_c12_r4, r1_r2, r2_leaf, r3]
